@@ -1,7 +1,61 @@
-(* C06 — theorems are added below as they are proved *)
-From Coq Require Import NArith List.
-From LV Require Import model.VecIndex spec.FcSpec proofs.FcSpecFast.
+(* C06 — Merged vector clock reports highest observed sequence or a fork.
+   Only theorem statements, each closed by [exact <lemma>], non-vacuity examples, Print Assumptions.
+   model: VecIndex.merged (Engine.GetMergedHighestBefore / HighestBeforeSeq.GatherFrom);
+   specification: FcSpec.merged_spec (ancestry closure, seq-forks, maximum). *)
+From Coq Require Import NArith List Permutation Bool.
+From LV Require Import model.VecIndex spec.FcSpec proofs.FcSpecFast proofs.FcSpecFacts proofs.VecInv proofs.VecMerged proofs.VecMain.
+Import ListNotations.
 Local Open Scope N_scope.
+
+(* the specification in the words of the property: a fork is reported iff two different events of
+   the validator with equal seq are ancestors-or-self; otherwise the entry is the highest seq among
+   the validator's ancestor-or-self events, 0 if there is none *)
+Theorem C06_spec_meaning : forall n E a v, (v < n)%nat ->
+  (SeesFork E a v /\ nth v (merged_spec n E a) (false, 0) = (true, 0)) \/
+  (~ SeesFork E a v /\ exists M, nth v (merged_spec n E a) (false, 0) = (false, M) /\ MaxSeq E a v M).
+Proof. exact merged_spec_meaning. Qed.
 Theorem C06_spec_t_is_spec : forall n E a, merged_spec_t n E (anc_table E) a = merged_spec n E a.
 Proof. exact merged_spec_t_eq. Qed.
+
+(* the property: every well-formed parents-first stream (forks included), every indexed event,
+   every validator: (fork flag, seq) of the merged clock = the specification *)
+Theorem C06_merged_equals_spec : forall n o a, wf_stream n o -> indexed o a ->
+  map proj (merged (index_all n o) a) = merged_spec n (dag_of o) a.
+Proof. exact merged_index_all. Qed.
+(* under the index invariant (I1-I3), for any state *)
+Theorem C06_merged_from_invariant : forall n s a ea, vinv n s -> evt s a ea ->
+  map proj (merged s a) = merged_spec n (evs s) a.
+Proof. intros n s a ea I. exact (merged_eq_spec n s I a ea). Qed.
+Theorem C06_order_independent : forall n o1 o2 a, wf_stream n o1 -> wf_stream n o2 -> Permutation o1 o2 ->
+  indexed o1 a -> map proj (merged (index_all n o1) a) = map proj (merged (index_all n o2) a).
+Proof. exact merged_order_independent. Qed.
+
+(* non-vacuity: the fork stream of props/C05.v (validator 0 forks at seq 2; event 6 sees it) *)
+Definition ex_o : list event :=
+  [ {| eid := 1; ecr := 0; eseq := 1; epar := [] |};
+    {| eid := 2; ecr := 1; eseq := 1; epar := [1] |};
+    {| eid := 3; ecr := 2; eseq := 1; epar := [2] |};
+    {| eid := 4; ecr := 0; eseq := 2; epar := [1; 3] |};
+    {| eid := 5; ecr := 0; eseq := 2; epar := [1] |};
+    {| eid := 6; ecr := 1; eseq := 2; epar := [2; 4; 5] |} ].
+Example C06_ex_wf : wf_stream 3 ex_o.
+Proof.
+  unfold wf_stream, ex_o. cbn [wf_from].
+  repeat (split; [unfold wf_ev; cbn [eid ecr eseq epar self_parent N.leb N.compare Pos.compare Pos.compare_cont];
+    repeat split; try reflexivity; try (vm_compute; intros H; discriminate H); try (unfold lt; repeat constructor);
+    try (intros p Hp; cbn [In] in Hp;
+         repeat (destruct Hp as [<-|Hp]; [eexists; vm_compute; reflexivity|]); destruct Hp);
+    try (eexists; split; [vm_compute; reflexivity|split; reflexivity])|]).
+  exact I.
+Qed.
+Example C06_ex_values :
+  map proj (merged (index_all 3 ex_o) 6) = [(true, 0); (false, 2); (false, 1)] /\
+  map proj (merged (index_all 3 ex_o) 4) = [(false, 2); (false, 1); (false, 1)] /\
+  merged_spec 3 (dag_of ex_o) 6 = [(true, 0); (false, 2); (false, 1)].
+Proof. vm_compute. repeat split; reflexivity. Qed.
+
+Print Assumptions C06_spec_meaning.
 Print Assumptions C06_spec_t_is_spec.
+Print Assumptions C06_merged_equals_spec.
+Print Assumptions C06_merged_from_invariant.
+Print Assumptions C06_order_independent.
